@@ -14,7 +14,8 @@ From Coq Require Export Uint63.
 From Verif.C20 Require Export Model.
 Open Scope Z_scope.
 
-Inductive op := OExec | OTest | OMatch | OMatchAll | OReplace | OSearch | OSplit (lim : option Z).
+Inductive op := OExec | OTest | OMatch | OMatchAll | OReplace | OSearch | OSplit (lim : option Z)
+              | OSetLI (z : Z).      (* script assigns re.lastIndex := z between calls *)
 Inductive ores := OK (r : res) | Err (e : N).
 
 Inductive tcase :=
@@ -75,6 +76,7 @@ Definition step_S (tab : list (option mres)) (fl : flags) (s : str) (li : Z) (o 
   | OReplace => replace_generic f fl rep_br s li
   | OSearch => search_generic f fl s li
   | OSplit lim => (split_generic f fl s lim, li)
+  | OSetLI z => (RZ z, z)
   end.
 (* I: the optimised drivers *)
 Definition step_I (e : engine) (tab : list (option mres)) (fl : flags) (s : str) (li : Z) (o : op) : res * Z :=
@@ -87,6 +89,7 @@ Definition step_I (e : engine) (tab : list (option mres)) (fl : flags) (s : str)
   | OReplace => replace_fast f fl rep_br s e li
   | OSearch => search_fast f fl s li
   | OSplit lim => (split_fast f fl s e lim, li)
+  | OSetLI z => (RZ z, z)
   end.
 
 Fixpoint run_ops (step : Z -> op -> res * Z) (li : Z) (ops : list op) : list (ores * Z) :=
@@ -224,7 +227,8 @@ Definition pop : P op :=
   match t with
   | 0%N => ret OExec | 1%N => ret OTest | 2%N => ret OMatch | 3%N => ret OMatchAll
   | 4%N => ret OReplace | 5%N => ret OSearch | 6%N => ret (OSplit None)
-  | _ => z <- pZ ;; ret (OSplit (Some z))
+  | 7%N => z <- pZ ;; ret (OSplit (Some z))
+  | _ => z <- pZ ;; ret (OSetLI z)
   end.
 Definition pengine : P engine := t <- tok ;; ret (if N.eqb t 0 then RE2 else RX2).
 Definition pflags : P flags :=
